@@ -385,6 +385,60 @@ func c09IsClearing(st *ssa.Store) bool {
 	return ok && ld.Op == token.MUL && c09Same(ld.X, st.Addr)
 }
 
+// c09WholeClears: st overwrites the whole struct behind base with a value in which field q is empty: the zero value, or
+// a composite literal whose field q is unset, nil, or base.q resliced to length 0.
+func c09WholeClears(st *ssa.Store, base ssa.Value, q *types.Var) bool {
+	if core.IsZeroConst(st.Val) {
+		return true
+	}
+	ld, ok := st.Val.(*ssa.UnOp)
+	if !ok || ld.Op != token.MUL {
+		return false
+	}
+	al, ok := ld.X.(*ssa.Alloc)
+	if !ok {
+		return false
+	}
+	for _, u := range core.Referrers(al) {
+		switch x := u.(type) {
+		case *ssa.FieldAddr:
+			if core.FieldOfAddr(x) != q {
+				continue
+			}
+			for _, uu := range core.Referrers(x) {
+				s2, ok := uu.(*ssa.Store)
+				if !ok || s2.Addr != ssa.Value(x) {
+					continue
+				}
+				if core.IsZeroConst(s2.Val) || core.IsNilConst(s2.Val) {
+					continue
+				}
+				sl, ok := s2.Val.(*ssa.Slice)
+				if !ok || sl.Low != nil || sl.High == nil {
+					return false
+				}
+				k, ok := sl.High.(*ssa.Const)
+				if !ok || k.Value == nil || k.Value.ExactString() != "0" {
+					return false
+				}
+				src, ok := sl.X.(*ssa.UnOp)
+				if !ok || src.Op != token.MUL {
+					return false
+				}
+				sfa, ok := src.X.(*ssa.FieldAddr)
+				if !ok || core.FieldOfAddr(sfa) != q || !c09Same(sfa.X, base) {
+					return false
+				}
+			}
+		case *ssa.Store:
+			if x.Addr == ssa.Value(al) {
+				return false // the literal itself is overwritten with something else
+			}
+		}
+	}
+	return true
+}
+
 // clearsAll: function g stores clearing values, on the base pointer `base`, into every borrow-holding field of S, on
 // every path to a return.
 func (r *c09rules) clearsAll(g *ssa.Function, base ssa.Value, S *types.Struct) (bool, string) {
@@ -399,6 +453,18 @@ func (r *c09rules) clearsAll(g *ssa.Function, base ssa.Value, S *types.Struct) (
 			for _, in := range b.Instrs {
 				st, ok := in.(*ssa.Store)
 				if !ok {
+					continue
+				}
+				if c09Same(st.Addr, base) && c09WholeClears(st, base, q) {
+					all := true
+					for _, rt := range rets {
+						if !core.Dominates(st, rt) {
+							all = false
+						}
+					}
+					if all {
+						cleared = true
+					}
 					continue
 				}
 				fa, ok := st.Addr.(*ssa.FieldAddr)
@@ -630,28 +696,7 @@ func (r *c09rules) copyInfo(f *ssa.Function, h *types.Var, flag *types.Var) *c09
 			cond, neg = u.X, true
 		}
 		if bo, ok := cond.(*ssa.BinOp); ok {
-			zero := func(v ssa.Value) bool {
-				k, ok := v.(*ssa.Const)
-				return ok && k.Value != nil && k.Value.ExactString() == "0"
-			}
-			emptySucc := -1
-			switch {
-			case isLen(bo.X) && zero(bo.Y):
-				switch bo.Op {
-				case token.GTR, token.NEQ:
-					emptySucc = 1
-				case token.EQL, token.LEQ:
-					emptySucc = 0
-				}
-			case isLen(bo.Y) && zero(bo.X):
-				switch bo.Op {
-				case token.LSS, token.NEQ:
-					emptySucc = 1
-				case token.EQL, token.GEQ:
-					emptySucc = 0
-				}
-			}
-			if emptySucc >= 0 {
+			if _, emptySucc, okT := a5LenTest(bo, isLen); okT && emptySucc >= 0 {
 				if neg {
 					emptySucc = 1 - emptySucc
 				}
